@@ -592,6 +592,10 @@ func raceChild(r *runner, p map[string]string) {
 							return err
 						}
 						tx.Put(key(), val())
+						if rnd.Intn(10) == 0 {
+							// a record the log refuses: the commit fails as a whole and must still end the transaction
+							tx.Put(key(), make([]byte, 40000))
+						}
 						tx.Get(key())
 						tx.Delete(key())
 						drain(tx.NewIterator())
@@ -614,6 +618,9 @@ func raceChild(r *runner, p map[string]string) {
 					})
 				case c < 72:
 					call("ApplyBatch", func() error {
+						if rnd.Intn(10) == 0 {
+							return e.ApplyBatch([]*wal.Entry{{Type: wal.OpTypePut, Key: key(), Value: val()}, {Type: wal.OpTypePut, Key: key(), Value: make([]byte, 40000)}})
+						}
 						return e.ApplyBatch([]*wal.Entry{{Type: wal.OpTypePut, Key: key(), Value: val()}, {Type: wal.OpTypeDelete, Key: key()},
 							{Type: wal.OpTypePut, Key: key(), Value: val()}})
 					})
